@@ -250,7 +250,19 @@ class W:
 
     def s_imports_sqrt(self):
         n = self.uid()
-        where = self.pick(["none", "before", "after", "from_typing_after", "alias"])
+        where = self.pick(["none", "before", "after", "from_typing_after", "alias", "docstring_not_first", "only_in_one_line_if",
+                           "only_in_one_line_if"])
+        if where == "docstring_not_first":
+            # a top-level doc-string that is not the first statement, after something that needs a support import when the module loads
+            first = self.pick(["def sq%d := sqrt 16.0" % n, "def so%d: Int? := None" % n, "type Di%d\n    def dneed%d(self) -> Int" % (n, n)])
+            return [first, '""" a doc-string in the middle """', "def dz%d := 1" % n]
+        if where == "only_in_one_line_if":
+            # the only sqrt of the module sits inside a one-line if that is the value of a definition
+            c = self.pick(["True", "False"])
+            form = self.pick(["def sv%d := if %s then sqrt 4.0 else 1.0", "def sv%d := if %s then 1.0 else sqrt 9.0",
+                              "def sv%d: Float := if %s then sqrt 16.0 else 2.0",
+                              "def sv%d := if %s then (if %s then sqrt 4.0 else 3.0) else 1.0".replace("(if %s", "(if True")])
+            return [form % (n, c)]
         use = ["def sq%d := sqrt %s" % (n, self.pick(["16.0", "2.0", "(1.0 + 3.0)"]))]
         opt = ["def so%d: Int? := None" % n]
         if where == "before":
